@@ -3,9 +3,9 @@
 import json, os, shutil, sys
 pid = sys.argv[1]
 rnd = sys.argv[2] if len(sys.argv) > 2 else "1"          # round 1: /tmp/ref-Cxx-out -> Axx-k ; round 2: /tmp/rf2-Cxx-out -> Bxx-k
-out = {"1": "/tmp/ref-%s-out", "2": "/tmp/rf2-%s-out", "3": "/tmp/rf3-%s-out"}[rnd] % pid
-sub = {"1": "agent", "2": "agent2", "3": "agent3"}[rnd]
-pre = {"1": "A", "2": "B", "3": "D"}[rnd]
+out = {"1": "/tmp/ref-%s-out", "2": "/tmp/rf2-%s-out", "3": "/tmp/rf3-%s-out", "4": "/tmp/rf4-%s-out"}[rnd] % pid
+sub = {"1": "agent", "2": "agent2", "3": "agent3", "4": "agent4"}[rnd]
+pre = {"1": "A", "2": "B", "3": "D", "4": "G"}[rnd]
 p = "/verif/mutants/specs.json"
 d = json.load(open(p))
 names = {m["name"] for m in d}
